@@ -53,6 +53,11 @@ MkCfg(decls, K, dedup, legacy) ==
   [decls |-> decls, spell |-> [i \in DOMAIN decls |-> Spellings(decls[i])],
    trie |-> Build(decls, dedup).t, K |-> K, legacy |-> legacy]
 
+\* a configuration for the abstract relation only (no trie: Accepts never looks at it) - used for
+\* generated declaration sets, where building the macro-shaped trie of a wide set is costly
+MkCfgAbs(decls, K) ==
+  [decls |-> decls, spell |-> [i \in DOMAIN decls |-> Spellings(decls[i])], trie |-> EmptyTrie, K |-> K, legacy |-> {}]
+
 \* ------------------------------------------------------------ error texts
 T_UndefinedHeader == <<85,110,100,101,102,105,110,101,100,32,104,101,97,100,101,114>>
 T_DataType  == <<68,97,116,97,32,116,121,112,101,32,101,114,114,111,114>>
